@@ -145,6 +145,13 @@ func (i *Interface) cacheEvictHandler(keyData, _ interface{}) {
 		return
 	}
 
+	// The permission was checked when the record was put into the write
+	// cache. The stored record may have been replaced since, check again.
+	if err := i.checkStoredPermission(db, r.DatabaseKey()); err != nil {
+		log.Warningf("database: failed to write evicted cache entry %q to database: %s", key, err)
+		return
+	}
+
 	r.Lock()
 	defer r.Unlock()
 
